@@ -1,5 +1,7 @@
 import SnaxVerif.Lemmas.Cores
 import SnaxVerif.Lemmas.CoreSched
+import SnaxVerif.Lemmas.CoresModule
+import SnaxVerif.Lemmas.CoresDispatch
 import SnaxVerif.Props.C14
 /-!
 C13 — cross-core dependencies are separated by a cluster barrier.
@@ -40,21 +42,22 @@ def GlobalsInert (p : Blk) : Prop :=
 /-- THE PROPERTY, full strength: after the pass, on every execution path (all branch outcomes, all trip
 counts) every conflicting pair of operations of different core sets has a barrier in between. -/
 def C13_statement : Prop :=
-  ∀ p rt, WF p → ∀ t, Run (insertBarriers Fix.all rt p) t → Separated t
+  ∀ p rt eff, WF p → CompoundOK eff p → ∀ t, Run (insertBarriers Fix.all rt eff p) t → Separated t
 
 /-- Nested `scf.if` / `scf.for` at any depth, every branch outcome and trip count, every back edge, accesses through
 any chain of views: no clause about loops (FC13a) and none about views the pass follows (FC13b) any more. -/
-theorem C13_structured_partial (p : Blk) (rt : Nat → Nat) (hwf : WF p) (hrv : RootVisible rt p)
-    (t : List Ev) (hr : Run (insertBarriers Fix.all rt p) t) (hg : NoGlobalBeforeSingleCoreWrite t) :
+theorem C13_structured_partial (p : Blk) (rt : Nat → Nat) (eff : Nat → List Nat) (hwf : WF p)
+    (hce : CompoundOK eff p) (hrv : RootVisible rt p)
+    (t : List Ev) (hr : Run (insertBarriers Fix.all rt eff p) t) (hg : NoGlobalBeforeSingleCoreWrite t) :
     Separated t := by
   intro a m c e1 e2 ht hc
   by_cases hall : e1.cls = Cls.all
   · exact hg a m c e1 e2 ht hall hc
-  · have h1 : e1 ∈ leavesB p := run_mem _ _ _ _ _ _ _ _ hr (by rw [ht]; simp)
-    have h2 : e2 ∈ leavesB p := run_mem _ _ _ _ _ _ _ _ hr (by rw [ht]; simp)
-    have hd : Dep rt e1 e2 := by
+  · have h1 : e1 ∈ leavesB p := run_mem _ _ _ _ _ _ _ _ _ hr (by rw [ht]; simp)
+    have h2 : e2 ∈ leavesB p := run_mem _ _ _ _ _ _ _ _ _ hr (by rw [ht]; simp)
+    have hd : Dep rt eff e1 e2 := by
       obtain ⟨hne, x, hx⟩ := hc
-      refine ⟨?_, ?_⟩
+      refine Or.inl ⟨?_, ?_⟩
       · cases h : e1.cls with
         | dm => exact Or.inl ⟨rfl, fun h' => hne (by rw [h, h'])⟩
         | cp => exact Or.inr ⟨rfl, fun h' => hne (by rw [h, h'])⟩
@@ -66,19 +69,21 @@ theorem C13_structured_partial (p : Blk) (rt : Nat → Nat) (hwf : WF p) (hrv : 
         · obtain ⟨v, hv, ev⟩ := hrv e1 h1 x (Or.inl hr1)
           obtain ⟨w, hw', ew⟩ := hrv e2 h2 x (Or.inr hw2)
           exact ⟨v, w, hv, hw', by rw [ev, ew]⟩
-    exact from_single (leavesB p) rt e1 e2 hd h2 p (topCtx p) [] t a m c hwf.1 hwf.2 hr ht
+    exact from_single (leavesB p) rt eff e1 e2 hd h2 p (topCtx p) [] t a m c hwf.1 hce hr ht
 
 /-- Straight-line code. -/
 theorem C13_straightline_partial (p : Blk) (rt : Nat → Nat) (hnd : (idsB p).Nodup) (hsl : StraightLine p)
     (hrv : RootVisible rt p)
-    (t : List Ev) (hr : Run (insertBarriers Fix.all rt p) t) (hg : NoGlobalBeforeSingleCoreWrite t) :
+    (t : List Ev) (hr : Run (insertBarriers Fix.all rt (fun _ => []) p) t) (hg : NoGlobalBeforeSingleCoreWrite t) :
     Separated t :=
-  C13_structured_partial p rt ⟨hnd, straight_compoundAll p hsl⟩ hrv t hr hg
+  C13_structured_partial p rt _ ⟨hnd, straight_compoundAll p hsl⟩ (compoundOK_of_all p (straight_compoundAll p hsl))
+    hrv t hr hg
 
-theorem no_global_of_inert (fx : Fix) (rt : Nat → Nat) (p : Blk) (t : List Ev) (hr : Run (insertBarriers fx rt p) t)
+theorem no_global_of_inert (fx : Fix) (rt : Nat → Nat) (eff : Nat → List Nat) (p : Blk) (t : List Ev)
+    (hr : Run (insertBarriers fx rt eff p) t)
     (h : GlobalsInert p) : NoGlobalBeforeSingleCoreWrite t := by
   intro a m c e1 e2 ht hall hc
-  have h1 : e1 ∈ leavesB p := run_mem _ _ _ _ _ _ _ _ hr (by rw [ht]; simp)
+  have h1 : e1 ∈ leavesB p := run_mem _ _ _ _ _ _ _ _ _ hr (by rw [ht]; simp)
   obtain ⟨hr1, hw1⟩ := h e1 h1 hall
   obtain ⟨_, x, hx⟩ := hc
   rw [hr1, hw1] at hx
@@ -87,8 +92,36 @@ theorem no_global_of_inert (fx : Fix) (rt : Nat → Nat) (p : Blk) (t : List Ev)
 /-- The D30 clause discharged statically: when the operations that run on all cores touch no buffer, every execution
 of the pass output is barrier-separated (no hypothesis about the execution left). -/
 theorem C13_inert_globals_partial (p : Blk) (rt : Nat → Nat) (hwf : WF p) (hrv : RootVisible rt p)
-    (hin : GlobalsInert p) (t : List Ev) (hr : Run (insertBarriers Fix.all rt p) t) : Separated t :=
-  C13_structured_partial p rt hwf hrv t hr (no_global_of_inert _ rt p t hr hin)
+    (hin : GlobalsInert p) (t : List Ev) (hr : Run (insertBarriers Fix.all rt (fun _ => []) p) t) : Separated t :=
+  C13_structured_partial p rt _ hwf (compoundOK_of_all p hwf.2) hrv t hr (no_global_of_inert _ rt _ p t hr hin)
+
+/-- clause of the repaired walk (FC13c): every buffer an all-cores operation touches is reached through one of the
+operands the pass treats as accessed (`eff`: the operation is not side-effect free, has no regions, is not view-like) -/
+def GlobalsDeclared (rt : Nat → Nat) (eff : Nat → List Nat) (p : Blk) : Prop :=
+  ∀ l ∈ leavesB p, l.cls = Cls.all → ∀ b, (b ∈ l.reads ∨ b ∈ l.writes) → ∃ v ∈ eff l.id, rt v = b
+
+/-- The walk WITH the proposed repair FC13c (all-cores operations that access memory make their later single-core
+users pending): the D30 clause is gone - every execution is barrier-separated, whichever kind of operation a
+dependency starts at. `eff = fun _ => []` is the code as it is: then `GlobalsDeclared` says all-cores operations
+touch nothing (`C13_inert_globals_partial`). -/
+theorem C13_declared_globals_partial (p : Blk) (rt : Nat → Nat) (eff : Nat → List Nat) (hwf : WF p)
+    (hce : CompoundOK eff p) (hrv : RootVisible rt p) (hgd : GlobalsDeclared rt eff p)
+    (t : List Ev) (hr : Run (insertBarriers Fix.all rt eff p) t) : Separated t :=
+  C13_structured_partial p rt eff hwf hce hrv t hr (fun a m c g1 g2 ht hg1 hc => by
+    -- a dependency that starts at an all-cores operation: recorded by the repaired walk
+    have h1 : g1 ∈ leavesB p := run_mem _ _ _ _ _ _ _ _ _ hr (by rw [ht]; simp)
+    have h2 : g2 ∈ leavesB p := run_mem _ _ _ _ _ _ _ _ _ hr (by rw [ht]; simp)
+    have hd : Dep rt eff g1 g2 := by
+      obtain ⟨hne, x, hx⟩ := hc
+      refine Or.inr ⟨hg1, fun h' => hne (by rw [hg1, h']), ?_⟩
+      rcases hx with ⟨hw, hrw⟩ | ⟨hr1, hw2⟩
+      · obtain ⟨v, hv, ev⟩ := hgd g1 h1 hg1 x (Or.inr hw)
+        obtain ⟨w, hw', ew⟩ := hrv g2 h2 x (hrw.imp id id)
+        exact ⟨v, w, hv, hw', by rw [ev, ew]⟩
+      · obtain ⟨v, hv, ev⟩ := hgd g1 h1 hg1 x (Or.inl hr1)
+        obtain ⟨w, hw', ew⟩ := hrv g2 h2 x (Or.inr hw2)
+        exact ⟨v, w, hv, hw', by rw [ev, ew]⟩
+    exact from_single (leavesB p) rt eff g1 g2 hd h2 p (topCtx p) [] t a m c hwf.1 hce hr ht)
 
 /-- Generic: in a barrier-separated execution no epoch holds two conflicting operations. -/
 theorem epoch_race_free (t : List Ev) (h : Separated t) :
@@ -135,10 +168,10 @@ def pIf : Blk :=
       (.leaf (mk 5 .cp [1, 2] [1] [2]) .nil))
 
 theorem C13_alias_fails :
-    ¬ (∀ p rt, WF p → ∀ t, Run (insertBarriers Fix.all rt p) t →
+    ¬ (∀ p rt, WF p → ∀ t, Run (insertBarriers Fix.all rt (fun _ => []) p) t →
         NoGlobalBeforeSingleCoreWrite t → Separated t) := by
   intro h
-  have hrun : Run (insertBarriers Fix.all id pAlias)
+  have hrun : Run (insertBarriers Fix.all id (fun _ => []) pAlias)
       [Ev.op (mk 1 .all [0, 1] [] []), Ev.op (mk 2 .cp [1, 2] [2] [0]), Ev.op (mk 3 .dm [0, 3] [0] [3])] :=
     run_leaf (run_leaf (run_leaf run_nil))
   have hs := h pAlias id ⟨by decide, by simp [pAlias, CompoundAll]⟩ _ hrun
@@ -157,9 +190,9 @@ theorem C13_alias_fails :
   simp at this
 
 theorem C13_global_first_fails :
-    ¬ (∀ p rt, WF p → RootVisible rt p → ∀ t, Run (insertBarriers Fix.all rt p) t → Separated t) := by
+    ¬ (∀ p rt, WF p → RootVisible rt p → ∀ t, Run (insertBarriers Fix.all rt (fun _ => []) p) t → Separated t) := by
   intro h
-  have hrun : Run (insertBarriers Fix.all id pGlobal)
+  have hrun : Run (insertBarriers Fix.all id (fun _ => []) pGlobal)
       [Ev.op (mk 1 .all [0] [0] []), Ev.op (mk 2 .dm [0, 1] [1] [0])] :=
     run_leaf (run_leaf run_nil)
   have hs := h pGlobal id ⟨by decide, by simp [pGlobal, CompoundAll]⟩
@@ -173,13 +206,13 @@ theorem C13_global_first_fails :
 
 /-- DC13a: the walk without FC13a (`Fix.f17`) only makes the yield pending for two direct children of one loop. -/
 theorem C13_f17_backedge_fails :
-    ¬ (∀ p, WF p → SsaVisible p → ∀ t, Run (insertBarriers Fix.f17 id p) t →
+    ¬ (∀ p, WF p → SsaVisible p → ∀ t, Run (insertBarriers Fix.f17 id (fun _ => []) p) t →
         NoGlobalBeforeSingleCoreWrite t → Separated t) := by
   intro h
   have hbody : Run (.leaf (mk 2 .cp [1, 2] [1] [2]) (.ifO (mk 3 .all [4] [] [])
       (.sync (.leaf (mk 4 .dm [0, 1] [0] [1]) (.leaf (mk 5 .all [] [] []) .nil))) .nil .nil)) _ :=
     run_leaf (run_ifT (run_sync (run_leaf (run_leaf run_nil))) run_nil)
-  have hrun : Run (insertBarriers Fix.f17 id pBackEdge) _ :=
+  have hrun : Run (insertBarriers Fix.f17 id (fun _ => []) pBackEdge) _ :=
     run_for2 (l := mk 1 .all [5, 6, 7] [] []) (y := mk 6 .all [] [] []) (ys := false) hbody hbody run_nil
   have hs := h pBackEdge ⟨by decide, by simp [pBackEdge, CompoundAll, mk]⟩
     (by
@@ -187,7 +220,7 @@ theorem C13_f17_backedge_fails :
       simp [pBackEdge, leavesB, mk] at hl
       rcases hl with rfl | rfl | rfl | rfl | rfl | rfl <;> simp at hb ⊢ <;> omega)
     _ hrun
-    (no_global_of_inert _ _ _ _ hrun (by
+    (no_global_of_inert _ _ _ _ _ hrun (by
       intro l hl hall
       simp [pBackEdge, leavesB, mk] at hl
       rcases hl with rfl | rfl | rfl | rfl | rfl | rfl <;> simp at hall ⊢))
@@ -200,10 +233,10 @@ theorem C13_f17_backedge_fails :
 /-- D5: the walk of the pinned commit (`Fix.orig`) clears the whole pending list at the barrier it places
 inside the `scf.if`; the path that skips the branch reaches the second consumer without a barrier. -/
 theorem C13_unfixed_if_fails :
-    ¬ (∀ p, WF p → SsaVisible p → ∀ t, Run (insertBarriers Fix.orig id p) t →
+    ¬ (∀ p, WF p → SsaVisible p → ∀ t, Run (insertBarriers Fix.orig id (fun _ => []) p) t →
         NoGlobalBeforeSingleCoreWrite t → Separated t) := by
   intro h
-  have hrun : Run (insertBarriers Fix.orig id pIf) _ :=
+  have hrun : Run (insertBarriers Fix.orig id (fun _ => []) pIf) _ :=
     run_leaf (l := mk 1 .dm [0, 1] [0] [1])
       (run_ifE (l := mk 2 .all [4] [] [])
         (a := .sync (.leaf (mk 3 .cp [1, 2] [1] [2]) (.leaf (mk 4 .all [] [] []) .nil)))
@@ -230,20 +263,20 @@ theorem C13_unfixed_if_fails :
   simp at this
 
 /-- with F17 the same function gets its second barrier (after the `scf.if`) -/
-example : insertBarriers Fix.f17 id pIf =
+example : insertBarriers Fix.f17 id (fun _ => []) pIf =
     .leaf (mk 1 .dm [0, 1] [0] [1])
       (.ifO (mk 2 .all [4] [] []) (.sync (.leaf (mk 3 .cp [1, 2] [1] [2]) (.leaf (mk 4 .all [] [] []) .nil))) .nil
         (.sync (.leaf (mk 5 .cp [1, 2] [1] [2]) .nil))) := by decide
 
 /-- with FC13a the DC13a witness gets the barrier in front of the loop's yield -/
-example : insertBarriers Fix.all id pBackEdge =
+example : insertBarriers Fix.all id (fun _ => []) pBackEdge =
     .forO (mk 1 .all [5, 6, 7] [] []) (.leaf (mk 2 .cp [1, 2] [1] [2])
       (.ifO (mk 3 .all [4] [] []) (.sync (.leaf (mk 4 .dm [0, 1] [0] [1]) (.leaf (mk 5 .all [] [] []) .nil))) .nil .nil))
       true (mk 6 .all [] [] []) .nil := by decide
 
 /-- with FC13b (`rt` = root under the view `%1 = subview %0`) the D6 witness gets its barrier, and the program
 meets `RootVisible` although it is not `SsaVisible` -/
-example : insertBarriers Fix.all (rootOf [(1, 0)] 1) pAlias =
+example : insertBarriers Fix.all (rootOf [(1, 0)] 1) (fun _ => []) pAlias =
     .leaf (mk 1 .all [0, 1] [] []) (.leaf (mk 2 .cp [1, 2] [2] [0]) (.sync (.leaf (mk 3 .dm [0, 3] [0] [3]) .nil))) ∧
     RootVisible (rootOf [(1, 0)] 1) pAlias ∧ ¬ SsaVisible pAlias := by
   refine ⟨by decide, ?_, ?_⟩
@@ -260,6 +293,18 @@ example : insertBarriers Fix.all (rootOf [(1, 0)] 1) pAlias =
     have := h (mk 2 .cp [1, 2] [2] [0]) (by simp [pAlias, leavesB]) 0 (Or.inr (by simp [mk]))
     simp [mk] at this
 
+/-- with the proposed repair FC13c (`test.op(%0)` declared as accessing `%0`) the D30 witness gets its barrier, and
+`pGlobal` meets `GlobalsDeclared` -/
+example : insertBarriers Fix.all id (fun i => if i = 1 then [0] else []) pGlobal =
+    .leaf (mk 1 .all [0] [0] []) (.sync (.leaf (mk 2 .dm [0, 1] [1] [0]) .nil)) ∧
+    GlobalsDeclared id (fun i => if i = 1 then [0] else []) pGlobal := by
+  refine ⟨by decide, ?_⟩
+  intro l hl hall b hb
+  simp [pGlobal, leavesB, mk] at hl
+  rcases hl with rfl | rfl
+  · simp at hb ⊢; exact hb.symm
+  · simp at hall
+
 /-! ## non-vacuity -/
 
 /-- `for { copy %0 -> %1 ; generic ins(%1) outs(%2) } ; return` -/
@@ -271,13 +316,13 @@ def pLoop : Blk :=
 /-- the hypotheses of `C13_structured_partial` are met by a loop with a loop-carried cross-core dependency;
 the pass puts a barrier between producer and consumer and one in front of the yield -/
 example : WF pLoop ∧ RootVisible id pLoop ∧ GlobalsInert pLoop ∧
-    insertBarriers Fix.all id pLoop = .forO (mk 1 .all [5, 6, 7] [] [])
+    insertBarriers Fix.all id (fun _ => []) pLoop = .forO (mk 1 .all [5, 6, 7] [] [])
       (.leaf (mk 2 .dm [0, 1] [0] [1]) (.sync (.leaf (mk 3 .cp [1, 2] [1] [2]) .nil))) true (mk 4 .all [] [] [])
       (.leaf (mk 5 .all [] [] []) .nil) ∧
-    ∃ t, Run (insertBarriers Fix.all id pLoop) t ∧ NoGlobalBeforeSingleCoreWrite t ∧ 10 ≤ t.length := by
+    ∃ t, Run (insertBarriers Fix.all id (fun _ => []) pLoop) t ∧ NoGlobalBeforeSingleCoreWrite t ∧ 10 ≤ t.length := by
   have hbody : Run (.leaf (mk 2 .dm [0, 1] [0] [1]) (.sync (.leaf (mk 3 .cp [1, 2] [1] [2]) .nil))) _ :=
     run_leaf (run_sync (run_leaf run_nil))
-  have hrun : Run (insertBarriers Fix.all id pLoop) _ :=
+  have hrun : Run (insertBarriers Fix.all id (fun _ => []) pLoop) _ :=
     run_for2 (l := mk 1 .all [5, 6, 7] [] []) (y := mk 4 .all [] [] []) (ys := true) hbody hbody
       (run_leaf (l := mk 5 .all [] [] []) run_nil)
   have hin : GlobalsInert pLoop := by
@@ -285,7 +330,7 @@ example : WF pLoop ∧ RootVisible id pLoop ∧ GlobalsInert pLoop ∧
     simp [pLoop, leavesB, mk] at hl
     rcases hl with rfl | rfl | rfl | rfl | rfl <;> simp at hall ⊢
   refine ⟨⟨by decide, by simp [pLoop, CompoundAll, mk]⟩, ssaVisible_rootVisible _ ?_, hin, by decide, _, hrun,
-    no_global_of_inert _ _ _ _ hrun hin, by simp [ySync]⟩
+    no_global_of_inert _ _ _ _ _ hrun hin, by simp [ySync]⟩
   intro l hl b hb
   simp [pLoop, leavesB, mk] at hl
   rcases hl with rfl | rfl | rfl | rfl | rfl <;> simp at hb ⊢ <;> omega
@@ -293,7 +338,7 @@ example : WF pLoop ∧ RootVisible id pLoop ∧ GlobalsInert pLoop ∧
 /-- straight-line instance: producer on the DMA core, consumer on the compute core -/
 example : (idsB (Blk.leaf (mk 1 .dm [0, 1] [0] [1]) (.leaf (mk 2 .cp [1, 2] [1] [2]) .nil))).Nodup ∧
     StraightLine (Blk.leaf (mk 1 .dm [0, 1] [0] [1]) (.leaf (mk 2 .cp [1, 2] [1] [2]) .nil)) ∧
-    insertBarriers Fix.all id (Blk.leaf (mk 1 .dm [0, 1] [0] [1]) (.leaf (mk 2 .cp [1, 2] [1] [2]) .nil)) =
+    insertBarriers Fix.all id (fun _ => []) (Blk.leaf (mk 1 .dm [0, 1] [0] [1]) (.leaf (mk 2 .cp [1, 2] [1] [2]) .nil)) =
       .leaf (mk 1 .dm [0, 1] [0] [1]) (.sync (.leaf (mk 2 .cp [1, 2] [1] [2]) .nil)) := by
   refine ⟨by decide, by simp [StraightLine], by decide⟩
 
@@ -332,11 +377,11 @@ theorem snax_to_func_preserves (q : Blk) (hk : CompoundKept q) (t' : List Ev) (h
 
 /-- `insert-sync-barrier` followed by `snax-to-func`: the code that runs is barrier-separated on every path. -/
 theorem C13_lowered_partial (p : Blk) (rt : Nat → Nat) (hwf : WF p) (hk : CompoundKept p) (hrv : RootVisible rt p)
-    (hg : ∀ t, Run (insertBarriers Fix.all rt p) t → NoGlobalBeforeSingleCoreWrite t)
-    (t' : List Ev) (hr : Run (lowerB (insertBarriers Fix.all rt p)) t') : Separated t' := by
-  obtain ⟨t, h1, _, h3⟩ := snax_to_func_preserves (insertBarriers Fix.all rt p)
-    (walk_compoundKept Fix.all _ rt p _ _ hk) t' hr
-  exact h3 (C13_structured_partial p rt hwf hrv t h1 (hg t h1))
+    (hg : ∀ t, Run (insertBarriers Fix.all rt (fun _ => []) p) t → NoGlobalBeforeSingleCoreWrite t)
+    (t' : List Ev) (hr : Run (lowerB (insertBarriers Fix.all rt (fun _ => []) p)) t') : Separated t' := by
+  obtain ⟨t, h1, _, h3⟩ := snax_to_func_preserves (insertBarriers Fix.all rt (fun _ => []) p)
+    (walk_compoundKept Fix.all _ rt _ p _ _ hk) t' hr
+  exact h3 (C13_structured_partial p rt _ hwf (compoundOK_of_all p hwf.2) hrv t h1 (hg t h1))
 
 /-- producer on the DMA core, consumer on the compute core, the buffer freed, the result copied out:
 `copy %0 -> %4 ; generic ins(%4) outs(%2) ; dealloc %4 ; copy %2 -> %3` -/
@@ -347,7 +392,7 @@ def pDealloc : Blk :=
 
 /-- the barrier that `insert-sync-barrier` places in front of the dealloc is the only one between the compute
 operation and the copy-out; the lowering erases the dealloc and keeps that barrier -/
-example : lowerB (insertBarriers Fix.all id pDealloc) =
+example : lowerB (insertBarriers Fix.all id (fun _ => []) pDealloc) =
     .leaf (mk 1 .dm [0, 4] [0] [4]) (.sync (.leaf (mk 2 .cp [2, 4] [4] [2])
       (.sync (.leaf (mk 4 .dm [2, 3] [2] [3]) .nil)))) ∧ CompoundKept pDealloc ∧ (idsB pDealloc).Nodup := by
   refine ⟨by decide, by simp [pDealloc, CompoundKept], by decide⟩
@@ -398,6 +443,49 @@ example :
     ∀ core, core < 3 →
       ((Dispatch.runF core (fun _ _ _ => []) (Dispatch.dispatch false true 3 f) 1 0).filter
         (fun l => l.kind == .other)).map (·.id) = [2] := by
+  decide
+
+/-- Unconditional form: a function before `dispatch-regions` has no core guard (`gfB`) and no core-id prelude, so
+after the pass EVERY two cores meet exactly the same barriers in the same order, for every number of cores and every
+resolution of the control flow - barrier k of one core is barrier k of every other core, no core waits alone. -/
+theorem every_core_meets_the_same_barriers (r : Bool) (f : Dispatch.Func) (hpre : f.pre = [])
+    (hgf : ∀ bb ∈ f.blocks, Dispatch.gfB bb.body = true) (nb c1 c2 : Nat) (orc : Dispatch.Orc) (fuel entry : Nat)
+    (isBarrier : Dispatch.Leaf → Bool)
+    (hb : ∀ l, isBarrier l = true → Dispatch.dmOf l = false ∧ Dispatch.cpOf r l = false) :
+    (Dispatch.runF c1 orc (Dispatch.dispatch r true nb f) fuel entry).filter isBarrier =
+      (Dispatch.runF c2 orc (Dispatch.dispatch r true nb f) fuel entry).filter isBarrier :=
+  barriers_same_on_all_cores r f nb c1 c2 orc fuel entry isBarrier hb
+    (Dispatch.runF_guard_free f hpre hgf c1 c2 orc fuel entry)
+
+/-! ## modules: the pending list survives from one function to the next
+
+`InsertSyncBarrier.apply` walks the whole module once; `ops_to_sync` is never reset between functions
+(`walkModule`). -/
+
+/-- The surviving state is harmless: for a module whose functions have disjoint operations, the one walk over the
+module yields for every function exactly what the pass yields for that function alone - so every theorem above
+about `insertBarriers` holds for each function of a module, in whatever order the functions appear. -/
+theorem C13_module_stateless (fx : Fix) (rt : Nat → Nat) (eff : Nat → List Nat) (fs : List Blk)
+    (hdis : fs.Pairwise (fun f g => ∀ z ∈ idsB f, z ∉ idsB g)) :
+    walkModule fx rt eff fs [] = fs.map (insertBarriers fx rt eff) :=
+  walkModule_independent fx rt eff fs [] hdis (fun _ _ _ h => by simp at h)
+
+/-- the same with anything pending on entry that names no operation of the module (e.g. left over from
+declarations or from operations outside any function) -/
+theorem C13_module_stateless_pending (fx : Fix) (rt : Nat → Nat) (eff : Nat → List Nat) (fs : List Blk) (P : List Nat)
+    (hdis : fs.Pairwise (fun f g => ∀ z ∈ idsB f, z ∉ idsB g)) (hP : ∀ f ∈ fs, ∀ z ∈ P, z ∉ idsB f) :
+    walkModule fx rt eff fs P = fs.map (insertBarriers fx rt eff) :=
+  walkModule_independent fx rt eff fs P hdis hP
+
+/-- two functions: the first leaves its consumer and its dealloc pending at its end; the second is processed as if
+alone (`copy %0 -> %1 ; generic ins(%1) outs(%2)` twice, ids 1-2 and 11-12) -/
+example :
+    let f := Blk.leaf (mk 1 .dm [0, 1] [0] [1]) (.leaf (mk 2 .cp [1, 2] [1] [2]) .nil)
+    let g := Blk.leaf (mk 11 .dm [0, 1] [0] [1]) (.leaf (mk 12 .cp [1, 2] [1] [2]) .nil)
+    walkModule Fix.all id (fun _ => []) [f, g] [] =
+      [.leaf (mk 1 .dm [0, 1] [0] [1]) (.sync (.leaf (mk 2 .cp [1, 2] [1] [2]) .nil)),
+       .leaf (mk 11 .dm [0, 1] [0] [1]) (.sync (.leaf (mk 12 .cp [1, 2] [1] [2]) .nil))] ∧
+    (walkB Fix.all (leavesB f) id (fun _ => []) (topCtx f) f []).2 ≠ [] := by
   decide
 
 end SnaxVerif.C13
